@@ -23,6 +23,8 @@ Template directives (all start with `//@@`; payloads in <<< >>> may span lines):
   //@@ AFTER <n> <<<anchor>>> <<<text>>>     insert text after n-th occurrence of anchor
   //@@ PRE <<<text>>>                    insert at the start of the body
   //@@ POST <<<text>>>                   insert at the end of the body (before `}`)
+  //@@ R7 <writer-ident>                 rule R7, mechanical: every write!(W, FMT, ..)? / W.write_all(..)? becomes
+                                         emit_last / emit_byte of the LAST byte written; dead lets are dropped
   //@@ CUT <<<start>>> <<<end>>>          drop the source text from `start` up to (not including) `end`;
                                          the number of dropped lines is reported in the evidence
   //@@ BODY                              emit `{ transformed body }`
@@ -87,6 +89,131 @@ class Assembled:
         self.trusted = []       # assume_specification / external_body / assume / admit lines
 
 
+def _split_top(s):
+    """split on top-level commas"""
+    out, depth, cur = [], 0, ''
+    m = mask(s)
+    for ch, mc in zip(s, m):
+        if mc in '([{':
+            depth += 1
+        elif mc in ')]}':
+            depth -= 1
+        if mc == ',' and depth == 0:
+            out.append(cur)
+            cur = ''
+        else:
+            cur += ch
+    if cur.strip():
+        out.append(cur)
+    return [x.strip() for x in out]
+
+
+def r7_edits(body, msk, writer, log, cuts=()):
+    """R7, mechanical: every `write!(W, "FMT", args..)?` and `W.write_all(..)?` becomes an
+    emission of the LAST BYTE the call writes:
+      FMT ends with a literal char c            -> emit_byte(W, b'c')
+      FMT ends with a placeholder {name}/{}     -> emit_last(W, <expression bound to it>)
+      W.write_all(b"..x")                       -> emit_byte(W, b'x')
+      W.write_all(slice::from_ref(&E))          -> emit_byte(W, E)
+    All other format arguments (the rendered numbers) are dropped."""
+    from extract import match_close
+    edits = []
+    def in_cut(pos):
+        return any(a <= pos < b for a, b in cuts)
+
+    for m in re.finditer(r'\bwrite!\s*\(', msk):
+        if in_cut(m.start()):
+            continue
+        o = m.end() - 1
+        c = match_close(msk, o)
+        inner = body[o + 1:c]
+        parts = _split_top(inner)
+        if len(parts) < 2 or parts[0] != writer:
+            continue
+        fm = re.fullmatch(r'"((?:[^"\\]|\\.)*)"', parts[1].strip(), flags=re.S)
+        if not fm:
+            raise LostAnchor('R7: write! format is not a string literal')
+        fmt = fm.group(1)
+        args = parts[2:]
+        named = {}
+        positional = []
+        for a in args:
+            am = re.match(r'^([A-Za-z_]\w*)\s*=(?!=)\s*(.*)$', a, flags=re.S)
+            if am:
+                named[am.group(1)] = am.group(2).strip()
+            else:
+                positional.append(a)
+        pm = re.search(r'\{([A-Za-z_]\w*)?(?::[^}]*)?\}$', fmt)
+        end = c + 1
+        tail = re.match(r'\s*\?', body[end:])
+        q = '?' if tail else ''
+        if tail:
+            end += tail.end()
+        if pm:
+            nm = pm.group(1)
+            if nm is None:
+                n_pos = len(re.findall(r'\{(?::[^}]*)?\}', fmt))
+                if n_pos - 1 >= len(positional):
+                    raise LostAnchor('R7: positional placeholder without argument')
+                expr = positional[n_pos - 1]
+            else:
+                expr = named.get(nm, nm)
+            rep = f'emit_last({writer}, {expr}){q}'
+        else:
+            last = fmt[-1] if fmt else ''
+            if not last or last == '\\':
+                raise LostAnchor('R7: cannot determine last byte of format')
+            ch = "\\'" if last == "'" else last
+            if fmt.endswith('\\n'):
+                ch = '\\n'
+            rep = f"emit_byte({writer}, b'{ch}'){q}"
+        edits.append((m.start(), end, rep))
+        log['R7 write! -> emit'] = log.get('R7 write! -> emit', 0) + 1
+    for m in re.finditer(r'\b' + re.escape(writer) + r'\s*\.\s*write_all\s*\(', msk):
+        if in_cut(m.start()):
+            continue
+        o = m.end() - 1
+        c = match_close(msk, o)
+        arg = body[o + 1:c].strip()
+        end = c + 1
+        tail = re.match(r'\s*\?', body[end:])
+        q = '?' if tail else ''
+        if tail:
+            end += tail.end()
+        bm = re.fullmatch(r'b"((?:[^"\\]|\\.)+)"', arg)
+        sm = re.fullmatch(r'slice::from_ref\(\s*&\s*(.+)\)', arg, flags=re.S)
+        if bm:
+            lit = bm.group(1)
+            ch = lit[-2:] if len(lit) >= 2 and lit[-2] == '\\' else lit[-1]
+            rep = f"emit_byte({writer}, b'{ch}'){q}"
+        elif sm:
+            rep = f'emit_byte({writer}, {sm.group(1).strip()}){q}'
+        else:
+            raise LostAnchor(f'R7: unsupported write_all argument {arg[:40]!r}')
+        edits.append((m.start(), end, rep))
+        log['R7 write_all -> emit'] = log.get('R7 write_all -> emit', 0) + 1
+    return edits
+
+
+def drop_dead_lets(body, log):
+    """after R7: a single-line `let PATTERN = EXPR;` whose bound names occur nowhere
+    else only fed dropped format arguments; it is removed (reported)."""
+    changed = True
+    while changed:
+        changed = False
+        msk = mask(body)
+        for m in re.finditer(r'^[ \t]*let\s+(\(?[A-Za-z_][\w\s,]*\)?)\s*=\s*[^;\n]*;[ \t]*\n', msk, flags=re.M):
+            names = re.findall(r'[A-Za-z_]\w*', m.group(1))
+            names = [n for n in names if n != 'mut']
+            rest = msk[:m.start()] + msk[m.end():]
+            if names and all(not re.search(r'\b' + re.escape(n) + r'\b', rest) for n in names):
+                body = body[:m.start()] + body[m.end():]
+                log['R7 dead let dropped (fed only dropped format arguments)'] = log.get('R7 dead let dropped (fed only dropped format arguments)', 0) + 1
+                changed = True
+                break
+    return body
+
+
 def transform_body(body, dirs, log):
     edits = []  # (start, end, replacement)
     msk = mask(body)
@@ -139,6 +266,15 @@ def transform_body(body, dirs, log):
                 raise LostAnchor(f'CUT end anchor {end!r} not found')
             edits.append((a, b, ''))
             log['CUT (source lines dropped)'] = log.get('CUT (source lines dropped)', 0) + body[a:b].count('\n')
+        elif kind == 'R7':
+            cuts = []
+            for d2 in dirs:
+                if d2[0] == 'CUT':
+                    a2 = body.find(d2[1])
+                    b2 = body.find(d2[2], a2 + len(d2[1])) if a2 >= 0 else -1
+                    if a2 >= 0 and b2 >= 0:
+                        cuts.append((a2, b2))
+            edits.extend(r7_edits(body, msk, d[1], log, cuts))
         elif kind == 'PRE':
             edits.append((0, 0, d[1] + '\n'))
             log['R5 proof insert'] = log.get('R5 proof insert', 0) + 1
@@ -167,6 +303,8 @@ def transform_body(body, dirs, log):
     out = body
     for s, e, r in reversed(final):
         out = out[:s] + r + out[e:]
+    if any(d[0] == 'R7' for d in dirs):
+        out = drop_dead_lets(out, log)
     return out
 
 
@@ -284,6 +422,8 @@ def assemble(template_path, repo):
                         dirs.append((kind, p[0]))
                     elif kind == 'CUT':
                         dirs.append(('CUT', p[0], p[1]))
+                    elif kind == 'R7':
+                        dirs.append(('R7', toks[2]))
                     else:
                         raise LostAnchor(f'unknown directive {kind}')
                     continue
@@ -376,6 +516,19 @@ def run_verus(path, rlimit=30, timeout=600, extra=None):
         res['status'] = 'tool-error'   # syntax/type/unsupported-construct: not a verdict
         res['stderr_tail'] = p.stderr[-3000:]
     else:
+        # a failed precondition that is NOT declared in the unit file (no span labelled
+        # `failed precondition`) belongs to vstd / a built-in operator -- typically float
+        # arithmetic, which Verus cannot reason about: unsupported construct, not a verdict
+        for d in res['diags']:
+            if d['message'].startswith('precondition not satisfied') and not any((sp.get('label') or '').startswith('failed precondition') for sp in d['spans']):
+                d['message'] = 'unsupported construct (precondition of a built-in / vstd operation, e.g. float arithmetic): ' + d['message']
+                d['unsupported'] = True
+        if res['diags'] and all(d.get('unsupported') for d in res['diags']):
+            res['status'] = 'tool-error'
+            res['stderr_tail'] = 'unsupported construct in extracted code'
+            return res
+        res['diags_all'] = res['diags']
+        res['diags'] = [d for d in res['diags'] if not d.get('unsupported')]
         msgs = ' | '.join(d['message'] for d in res['diags'])
         if RLIMIT_PAT.search(msgs) and not any(REFUTE_PAT.search(d['message']) for d in res['diags']):
             res['status'] = 'rlimit'
